@@ -39,12 +39,15 @@ def render_tokens(tokens, fill, k, l2):
     return "".join(out)
 
 
-def list_recognizer(value):
+def list_recognizer(value, with_context=False):
     def rec(input, pos):
         # documented style for non-textual input: the parser only calls
         # recognizers inside the input
         if input[pos] == value:
             return input[pos:pos + 1]
+    if with_context:
+        # the other documented call signature: the parsing context comes first
+        return lambda context, input, pos: rec(input, pos)
     return rec
 
 
@@ -85,7 +88,7 @@ def run_case(case, ctx):
         # terminals with empty bodies + custom recognizers over a list of ints
         vals = {name: i + 1 for i, name in enumerate(cfg.term_names)}
         gl = CFG(cfg.nts, [(n, "empty", "") for n in cfg.term_names], cfg.prods).to_parglare()
-        recs = {n: list_recognizer(v) for n, v in vals.items()}
+        recs = {n: list_recognizer(v, with_context=bool((case.get("ctxrec", 0) >> (v % 3)) & 1)) for n, v in vals.items()}
         text_g = gl
         mk = lambda: pgl.Grammar.from_string(gl, recognizers=recs)  # noqa: E731
         kw = dict(ws=None)
@@ -100,6 +103,10 @@ def run_case(case, ctx):
         kw = {}
         refcfg = cfg
         lex = Lexicon(cfg.terms)
+        if case.get("ws") and mode in ("L0", "L2"):
+            # a line-oriented language: the new line is not layout, so it is an offending character itself
+            kw = {"ws": case["ws"]}
+            lex = Lexicon(cfg.terms, ws=case["ws"])
         l2 = mode == "L2"
         if mode == "L1":
             inputs = [(s, s) for s in G.char_inputs("ab", case["max_len"])]
@@ -227,6 +234,7 @@ def _case(gstrat, mode):
         g = draw(gstrat)
         nterm = len(g["terms"])
         return {"g": g, "mode": mode, "fill": draw(FILL), "junk": draw(st.sampled_from(JUNKS)),
+                "ws": draw(st.sampled_from([None, None, " \t"])), "ctxrec": draw(st.integers(0, 7)),
                 "max_len": (5 if nterm <= 2 else 4) if mode != "L1" else 5}
     return c()
 
